@@ -674,7 +674,7 @@ def collect_decls(objs):
             tt = n.get('type', {})
             TYPEDEFS[q] = tt.get('desugaredQualType') or tt.get('qualType')
             TYPEDEFS[n.get('name', '')] = TYPEDEFS[q]
-        if k in ('CXXMethodDecl', 'FunctionDecl', 'CXXConstructorDecl', 'CXXDestructorDecl'):
+        if k in ('CXXMethodDecl', 'FunctionDecl', 'CXXConstructorDecl', 'CXXDestructorDecl', 'CXXConversionDecl'):
             if ctx and ctx[-1][0] == 'FunctionTemplateDecl' and not any(isinstance(c, dict) and c.get('kind') == 'TemplateArgument' for c in n.get('inner', [])):
                 n['_pattern'] = True      # the uninstantiated template pattern
             found.append((ctx, n))
@@ -785,7 +785,7 @@ class AstUnit:
                         consts[c['name']] = val
                 self.prog.enums[mangle(q)] = consts
         for ctx, n in decls:
-            if n.get('kind') in ('CXXMethodDecl', 'FunctionDecl', 'CXXConstructorDecl', 'CXXDestructorDecl'):
+            if n.get('kind') in ('CXXMethodDecl', 'FunctionDecl', 'CXXConstructorDecl', 'CXXDestructorDecl', 'CXXConversionDecl'):
                 parent = ''
                 if 'parentDeclContextId' in n and n['parentDeclContextId'] in self.rec_of_id:
                     parent = self.rec_of_id[n['parentDeclContextId']]
@@ -1005,7 +1005,7 @@ class FnTranslator:
     def translate(self):
         n = self.node
         params = []
-        is_method = n['kind'] in ('CXXMethodDecl', 'CXXConstructorDecl') and n.get('storageClass') != 'static'
+        is_method = n['kind'] in ('CXXMethodDecl', 'CXXConstructorDecl', 'CXXConversionDecl') and n.get('storageClass') != 'static'
         rec = None
         if is_method:
             rec = mangle(self.parent)
@@ -1147,6 +1147,9 @@ class FnTranslator:
             if t[0] == 'optional' and not args:
                 self.rule('std::optional: default construction = disengaged')
                 return [('assign', ('field', lv, 'has', ('bool',)), ('const', ('bool',), 0))]
+            if t[0] == 'optional' and len(args) == 1 and self.T(args[0]) == t:
+                self.rule('std::optional: copy construction = copy of flag and payload')
+                return [('assign', lv, self.expr(args[0]))]
             if t[0] == 'optional' and len(args) == 1 and is_scalar(self.T(args[0])):
                 self.rule('std::optional: construction from a value = engaged')
                 return [('assign', ('field', lv, 'v', t[1]), self.expr(args[0])), ('assign', ('field', lv, 'has', ('bool',)), ('const', ('bool',), 1))]
@@ -2032,6 +2035,9 @@ class FnTranslator:
             if is_scalar(t) and len(args) == 1:
                 return self.expr(args[0])
             if t[0] == 'duration' and len(args) == 1:
+                return self.expr(args[0])
+            if t[0] == 'optional' and len(args) == 1 and self.T(args[0]) == t:
+                self.rule('std::optional: copy/move construction = copy of flag and payload')
                 return self.expr(args[0])
             self.err(n, 'construct expression of %r in scalar context' % (t,))
         if k == 'CXXScalarValueInitExpr' or k == 'ImplicitValueInitExpr':
